@@ -31,7 +31,7 @@ Definition m2_eqb (a b : m2) : bool :=
 
 Definition m2_ops : vops m2 :=
   {| v0 := m2_zero; v1 := m2_one; vadd := m2_add; vneg := m2_neg; vmul := m2_mul;
-     vadj := m2_adj; vdiv := m2_div |}.
+     vadj := m2_adj; vdiv := m2_div; vis0 := fun a => m2_eqb a m2_zero |}.
 
 (** integer matrix literal *)
 Definition mz (a b c d : Z) : m2 := M2 (inject_Z a) (inject_Z b) (inject_Z c) (inject_Z d).
